@@ -42,11 +42,6 @@ def touch {V : Type} (to : List String) (op : Op V) (out : Out V) : List String 
   | some k => to.filter (· != k) ++ [k]
   | none => to
 
-/-- keys ever touched, least recently touched first -/
-def touchOrder {V : Type} (to : List String) : List (Op V × Out V) → List String
-  | [] => to
-  | (op, out) :: rest => touchOrder (touch to op out) rest
-
 /-- the keys touched after the last touch of `k` (each once) -/
 def keysSince (to : List String) (k : String) : List String := (to.dropWhile (· != k)).drop 1
 
@@ -137,6 +132,14 @@ def firstBad {V : Type} [DecidableEq V] (maxsize : Int) (s : SpecSt V) (i : Nat)
                   ++ (if orderOk s o then [] else ["order"]))
 
 /-! ### history-level notions used in theorem statements (not evaluated by the driver) -/
+
+/-- keys ever stored or found, least recently touched first -/
+def touchOrderFrom {V : Type} (to : List String) : List (Obs V) → List String
+  | [] => to
+  | o :: rest => touchOrderFrom (touch to o.op o.out) rest
+
+/-- … over the whole observed history of a fresh cache -/
+def touchOrder {V : Type} (obs : List (Obs V)) : List String := touchOrderFrom [] obs
 
 /-- spec bookkeeping after a whole observed history -/
 def specAfter {V : Type} (s : SpecSt V) : List (Obs V) → SpecSt V
